@@ -123,8 +123,10 @@ type verifMiniTx struct {
 	d *verifMiniDB
 }
 
-func (d *verifMiniDB) Init(ctx context.Context, generator imap.UIDValidityGenerator) error { return nil }
-func (d *verifMiniDB) Close() error                                                        { return nil }
+func (d *verifMiniDB) Init(ctx context.Context, generator imap.UIDValidityGenerator) error {
+	return nil
+}
+func (d *verifMiniDB) Close() error { return nil }
 func (d *verifMiniDB) Read(ctx context.Context, op func(context.Context, db.ReadOnly) error) error {
 	return op(ctx, &verifMiniTx{d: d})
 }
